@@ -28,7 +28,7 @@ ENTRY = dict(
                    "deleted resets with no placeholder or marker left; the placeholder labelled _k receives joint[k] in every partition, and when every cut id is an index into `bases` the ids are exactly 0..n-1 and bases[k] is the basis of a placeholder labelled _k (so coefficient and circuit use the same map of the same basis); "
                    "refusal theorems for the type mismatches, num_samples < 1 / NaN / -inf, a missing or non-numeric label suffix and "
                    "one-qubit placeholders in an unseparated circuit. The model is run inside Coq on every input the implementation ran "
-                   "on (about 240 generated calls per quick run) and compared circuit by circuit, instruction by instruction, register "
+                   "on (about 275 generated calls per quick run, about 2400 in the thorough tier) and compared circuit by circuit, instruction by instruction, register "
                    "layout exactly, coefficient types exactly, coefficient values exactly where binary64 arithmetic is exact and within "
                    "1e-12*kappa otherwise.",
         level_note=STD_NOTE + "No axioms. The weights dictionary (generate_qpd_weights: property C04) and the commuting groups "
